@@ -135,7 +135,22 @@ def gen_img(rng, index, block):
     spec['position_css'], spec['position'] = gen_position_css(rng)
     spec['res'] = rng.choice([F(1), F(1), F(2), F(1, 2), F(4)])
     spec['rendering'] = rng.choice(['auto', 'auto', 'pixelated', 'crisp-edges'])
+    spec['res_unit'] = rng.choice(['dppx', 'dppx', 'dpi'])
+    # image-orientation: a quarter turn exchanges the intrinsic width and height
+    spec['orientation'] = rng.choice([None, None, None, '90deg', '180deg', 'flip', '270deg flip', 'none'])
     spec['kind'] = rng.choice(['img', 'img', 'object', 'embed'])
+    if not block and rng.random() < 0.12:
+        # generated content: `::before { content: url(…) }` — an anonymous inline replaced box, every sizing
+        # property at its initial value; image-resolution and image-rendering are inherited from the pseudo-element
+        spec['kind'] = 'content'
+        for name in ('width', 'height', 'min_width', 'min_height', 'max_width', 'max_height'):
+            spec[name] = 'auto'
+        for side in ('left', 'right', 'top', 'bottom'):
+            spec[f'margin_{side}'] = spec[f'padding_{side}'] = ('px', F(0))
+            spec[f'border_{side}'] = F(0)
+        spec['fit'], spec['position_css'] = 'fill', '50% 50%'
+        spec['position'] = (False, ('%', F(50)), False, ('%', F(50)))
+        return spec
     if rng.random() < 0.2:
         # an SVG: intrinsic width / height / ratio each possibly missing (sizing only; its painting is svg/)
         spec['kind'] = 'svg'
@@ -148,10 +163,19 @@ def gen_img(rng, index, block):
     return spec
 
 
+def resolution_css(spec):
+    """`image-resolution` in dppx or, equivalently, in dpi (96dpi = 1dppx: the products are exact doubles)."""
+    if spec.get('res_unit') == 'dpi':
+        return f'{float(spec["res"] * 96):g}dpi'
+    return f'{float(spec["res"]):g}dppx'
+
+
 def img_html(spec):
     css = [f'display:{"block" if spec["block"] else "inline"}', 'vertical-align:top',
            f'object-fit:{spec["fit"]}', f'object-position:{spec["position_css"]}',
-           f'image-resolution:{float(spec["res"]):g}dppx', f'image-rendering:{spec["rendering"]}']
+           f'image-resolution:{resolution_css(spec)}', f'image-rendering:{spec["rendering"]}']
+    if spec.get('orientation'):
+        css.append(f'image-orientation:{spec["orientation"]}')
     for name in ('width', 'height'):
         css.append(f'{name}:{css_len(spec[name])}')
         css.append(f'min-{name}:{css_len(spec["min_" + name])}')
@@ -162,6 +186,9 @@ def img_html(spec):
         css.append(f'padding-{side}:{css_len(spec["padding_" + side])}')
         css.append(f'border-{side}:{float(spec["border_" + side]):g}px solid black')
     uri, style, kind = png_uri(spec['pw'], spec['ph'], spec['color']), ';'.join(css), spec.get('kind', 'img')
+    if kind == 'content':
+        return (f'<style>#{spec["id"]}::before{{content:url({uri});image-resolution:{resolution_css(spec)};'
+                f'image-rendering:{spec["rendering"]};vertical-align:top}}</style><span id="{spec["id"]}"></span>')
     if kind == 'svg':
         source = real.svg_source(*spec['svg']).encode()
         uri, kind = 'data:image/svg+xml;base64,' + base64.b64encode(source).decode(), 'img'
@@ -338,7 +365,9 @@ def run_document(doc):
         assert isinstance(box, boxes.BlockReplacedBox if spec['block'] else boxes.InlineReplacedBox)
         image = box.replacement
         is_svg = spec.get('kind') == 'svg'
-        assert is_svg or (image.width, image.height) == (spec['pw'], spec['ph'])
+        quarter = str(spec.get('orientation') or '').startswith(('90deg', '270deg')) and spec.get('kind') != 'content'
+        pw, ph = (spec['ph'], spec['pw']) if quarter else (spec['pw'], spec['ph'])
+        assert is_svg or (image.width, image.height) == (pw, ph)
         css = [dim_wire(spec[k]) for k in ('width', 'height', 'min_width', 'min_height')]
         css += ['none' if spec[k] == 'auto' else dim_wire(spec[k]) for k in ('max_width', 'max_height')]
         css += [dim_wire(spec[f'margin_{s}']) for s in ('left', 'right', 'top', 'bottom')]
@@ -351,7 +380,7 @@ def run_document(doc):
                            pos_y, *real.svg_model_args(*spec['svg']))
         else:
             line = sx.line('docimg', spec['block'], css, [cb['width'], cb['rtl']], cb['height'], cx,
-                           pos_y, spec['pw'], spec['ph'], spec['res'], F(image.ratio))
+                           pos_y, pw, ph, spec['res'], F(image.ratio))
         out = ok(' '.join(fmt(F(getattr(box, n))) for n in real.RBOX_OUT) +
                  f' at {fmt(F(box.position_x))} {fmt(F(box.position_y))}')
         sized = 'auto' in (spec['width'], spec['height']) or any(
@@ -381,7 +410,7 @@ def run_document(doc):
         img_draws.append(['i', image.id, spec['rendering'] == 'auto', 1, False])
         x, y, w, h, pdf_name = draw
         line = sx.line('drawrep', True, real.geom_wire(g), spec['fit'], position_wire(spec['position']),
-                       spec['res'], F(image.ratio), image.id, spec['pw'], spec['ph'], None, SCALE, -SCALE,
+                       spec['res'], F(image.ratio), image.id, pw, ph, None, SCALE, -SCALE,
                        spec['rendering'] == 'auto')
         if lossless(rect):
             out = ok(f'(1 0 0 1 {fmt(x)} {fmt(y)}) {pdf_name} {str(pdf_name.endswith("1")).lower()} 1 '
@@ -589,3 +618,18 @@ def finding_abs_replaced_ratio_only():
         if isinstance(box, boxes.ReplacedBox):
             return box.width != 200
     return True
+
+
+def finding_no_repeat_axis_wraps():
+    """Known finding: `background-repeat: no-repeat repeat` with the image placed outside the box: the tiling
+    pattern steps by max(tile, 2 x painting width) on the no-repeat axis, so a copy comes back inside the box."""
+    html = ('<style>@page{size:200px;margin:0}body{margin:0}</style>'
+            f'<div style="width:50px;height:40px;background:url({png_uri(8, 8, 0)}) 300px 0 / 10px 10px '
+            'no-repeat repeat"></div>')
+    pdf = docs.render(html).write_pdf(uncompressed_pdf=True).decode('latin1')
+    m = re.search(r'/BBox \[0 0 (\S+) \S+\]/XStep (\S+)/YStep \S+/TilingType 1/PaintType 1/Matrix \[(\S+) 0 0 \S+ (\S+) ', pdf)
+    if not m:
+        return False
+    tile, step, scale, e = (Fraction(v) for v in m.groups())
+    origin = e / scale                       # x of the image in CSS px: 300, outside the 50px box
+    return any(origin + k * step < 50 and 0 < origin + k * step + tile for k in range(-10, 11) if k != 0)
